@@ -8,6 +8,7 @@ import RelicVerif.Lemmas.Md
 import RelicVerif.Lemmas.ShaStream
 import RelicVerif.Lemmas.Blake2s
 import RelicVerif.Lemmas.Aes
+import RelicVerif.Lemmas.AesTables
 
 namespace Relic.Props.C14
 open Relic.Spec Relic.Model Relic.Lemmas.Md
@@ -260,6 +261,42 @@ theorem aes_cbc_rejects_bad_padding_concrete (key iv c m : Bytes) (cap : Nat) (h
 
 /-- non-vacuity: a 16-byte key is valid -/
 example : validKey (List.replicate 16 0) := Or.inl (by simp)
+
+/-- the ten lookup tables and the rcon table of src/bc/rijndael-alg-fst.c, as extracted from the C text on every run
+    (Gen/AesTables.lean), are for all 256 indices what FIPS 197 makes them: Te_k[x] = the k-th rotation of
+    (02·S[x], S[x], S[x], 03·S[x]), Te4[x] = S[x] in every byte, Td_k[x] = rotations of (0e·Si[x], 09·Si[x], 0d·Si[x], 0b·Si[x]),
+    Td4[x] = Si[x] in every byte, rcon[i] = x^i in the top byte (kernel evaluation over every entry) -/
+theorem aes_tables_conform :
+    (∀ i, i < 256 → Relic.Gen.AesTables.Te0.getD i 0 = (let x := UInt8.ofNat i; Relic.Lemmas.AesTables.pack (Aes.gmul 0x02 (Aes.sbox x)) (Aes.sbox x) (Aes.sbox x) (Aes.gmul 0x03 (Aes.sbox x)))) ∧
+    (∀ i, i < 256 → Relic.Gen.AesTables.Te1.getD i 0 = (let x := UInt8.ofNat i; Relic.Lemmas.AesTables.pack (Aes.gmul 0x03 (Aes.sbox x)) (Aes.gmul 0x02 (Aes.sbox x)) (Aes.sbox x) (Aes.sbox x))) ∧
+    (∀ i, i < 256 → Relic.Gen.AesTables.Te2.getD i 0 = (let x := UInt8.ofNat i; Relic.Lemmas.AesTables.pack (Aes.sbox x) (Aes.gmul 0x03 (Aes.sbox x)) (Aes.gmul 0x02 (Aes.sbox x)) (Aes.sbox x))) ∧
+    (∀ i, i < 256 → Relic.Gen.AesTables.Te3.getD i 0 = (let x := UInt8.ofNat i; Relic.Lemmas.AesTables.pack (Aes.sbox x) (Aes.sbox x) (Aes.gmul 0x03 (Aes.sbox x)) (Aes.gmul 0x02 (Aes.sbox x)))) ∧
+    (∀ i, i < 256 → Relic.Gen.AesTables.Te4.getD i 0 = (let x := UInt8.ofNat i; Relic.Lemmas.AesTables.pack (Aes.sbox x) (Aes.sbox x) (Aes.sbox x) (Aes.sbox x))) ∧
+    (∀ i, i < 256 → Relic.Gen.AesTables.Td0.getD i 0 = (let x := UInt8.ofNat i; Relic.Lemmas.AesTables.pack (Aes.gmul 0x0e (Aes.invSbox x)) (Aes.gmul 0x09 (Aes.invSbox x)) (Aes.gmul 0x0d (Aes.invSbox x)) (Aes.gmul 0x0b (Aes.invSbox x)))) ∧
+    (∀ i, i < 256 → Relic.Gen.AesTables.Td1.getD i 0 = (let x := UInt8.ofNat i; Relic.Lemmas.AesTables.pack (Aes.gmul 0x0b (Aes.invSbox x)) (Aes.gmul 0x0e (Aes.invSbox x)) (Aes.gmul 0x09 (Aes.invSbox x)) (Aes.gmul 0x0d (Aes.invSbox x)))) ∧
+    (∀ i, i < 256 → Relic.Gen.AesTables.Td2.getD i 0 = (let x := UInt8.ofNat i; Relic.Lemmas.AesTables.pack (Aes.gmul 0x0d (Aes.invSbox x)) (Aes.gmul 0x0b (Aes.invSbox x)) (Aes.gmul 0x0e (Aes.invSbox x)) (Aes.gmul 0x09 (Aes.invSbox x)))) ∧
+    (∀ i, i < 256 → Relic.Gen.AesTables.Td3.getD i 0 = (let x := UInt8.ofNat i; Relic.Lemmas.AesTables.pack (Aes.gmul 0x09 (Aes.invSbox x)) (Aes.gmul 0x0d (Aes.invSbox x)) (Aes.gmul 0x0b (Aes.invSbox x)) (Aes.gmul 0x0e (Aes.invSbox x)))) ∧
+    (∀ i, i < 256 → Relic.Gen.AesTables.Td4.getD i 0 = (let x := UInt8.ofNat i; Relic.Lemmas.AesTables.pack (Aes.invSbox x) (Aes.invSbox x) (Aes.invSbox x) (Aes.invSbox x))) ∧
+    (∀ i, i < 10 → Relic.Gen.AesTables.rcon.getD i 0 = (Aes.rcon (i + 1)).toUInt32 <<< (24 : UInt32)) :=
+  ⟨Relic.Lemmas.AesTables.Te0_spec, Relic.Lemmas.AesTables.Te1_spec, Relic.Lemmas.AesTables.Te2_spec,
+   Relic.Lemmas.AesTables.Te3_spec, Relic.Lemmas.AesTables.Te4_spec, Relic.Lemmas.AesTables.Td0_spec,
+   Relic.Lemmas.AesTables.Td1_spec, Relic.Lemmas.AesTables.Td2_spec, Relic.Lemmas.AesTables.Td3_spec,
+   Relic.Lemmas.AesTables.Td4_spec, Relic.Lemmas.AesTables.rcon_spec⟩
+
+/-- one round of the table code (both half rounds of the loop of rijndaelEncrypt: Te0[s0>>24] ^ Te1[(s1>>16)&0xff] ^ Te2[(s2>>8)&0xff] ^
+    Te3[s3&0xff] ^ rk[o], …) on the big-endian words of a 16-byte state and round key is
+    AddRoundKey(MixColumns(ShiftRows(SubBytes(state))), key) of FIPS 197, for every state and key -/
+theorem aes_table_round_conforms (x0 x1 x2 x3 x4 x5 x6 x7 x8 x9 x10 x11 x12 x13 x14 x15 k0 k1 k2 k3 k4 k5 k6 k7 k8 k9 k10 k11 k12 k13 k14 k15 : UInt8)
+    (rk : Array UInt32) (o : Nat)
+    (h0 : rk.getD o 0 = Relic.Lemmas.AesTables.X k0 k1 k2 k3) (h1 : rk.getD (o+1) 0 = Relic.Lemmas.AesTables.X k4 k5 k6 k7)
+    (h2 : rk.getD (o+2) 0 = Relic.Lemmas.AesTables.X k8 k9 k10 k11) (h3 : rk.getD (o+3) 0 = Relic.Lemmas.AesTables.X k12 k13 k14 k15) :
+    Rijndael.encHalf rk o (Relic.Lemmas.AesTables.X x0 x1 x2 x3, Relic.Lemmas.AesTables.X x4 x5 x6 x7,
+        Relic.Lemmas.AesTables.X x8 x9 x10 x11, Relic.Lemmas.AesTables.X x12 x13 x14 x15) =
+      (let r := Relic.Lemmas.AesTables.specRound [x0, x1, x2, x3, x4, x5, x6, x7, x8, x9, x10, x11, x12, x13, x14, x15]
+                  [k0, k1, k2, k3, k4, k5, k6, k7, k8, k9, k10, k11, k12, k13, k14, k15]
+       (Rijndael.getu32 r 0, Rijndael.getu32 r 4, Rijndael.getu32 r 8, Rijndael.getu32 r 12)) :=
+  Relic.Lemmas.AesTables.encHalf_spec x0 x1 x2 x3 x4 x5 x6 x7 x8 x9 x10 x11 x12 x13 x14 x15 k0 k1 k2 k3 k4 k5 k6 k7 k8 k9 k10 k11 k12 k13 k14 k15
+    rk o h0 h1 h2 h3
 
 /-- non-vacuity: PKCS#7 of a 3-byte message; the padding split of SHA-256 at 55/56 bytes -/
 example : Aes.pkcs7Pad [1, 2, 3] = [1, 2, 3] ++ List.replicate 13 13 := by decide
